@@ -412,4 +412,110 @@ theorem offs_only_calls (cfg : Cfg) (sc : List String) (w : Bool) :
       exact ⟨off_only_calls cfg sc w e _ (by simp [anyE, h.1.1, h.1.2]), offs_only_calls cfg sc w es _ h.2⟩
 end
 
+/-! ### statement-level bridge -/
+def stmtOrCallKinds : List String := ["Call", "If", "While", "For", "Break", "Continue", "Return"]
+
+/-- every offender is a call or a statement construct -/
+def SC (l : List Off) : Prop := ∀ o ∈ l, o.kind ∈ stmtOrCallKinds
+
+theorem SC_nil : SC [] := by intro o h; cases h
+theorem SC_append {a b : List Off} : SC (a ++ b) ↔ SC a ∧ SC b := by
+  constructor
+  · intro h; exact ⟨fun o ho => h o (List.mem_append_left _ ho), fun o ho => h o (List.mem_append_right _ ho)⟩
+  · intro ⟨ha, hb⟩ o ho
+    rcases List.mem_append.mp ho with h | h
+    · exact ha o h
+    · exact hb o h
+theorem SC_of_OC {l : List Off} (h : OC l) : SC l := by
+  intro o ho; rw [h o ho]; decide
+theorem SC_cons {k : String} {i : Nat} {d : String} {l : List Off} (hk : k ∈ stmtOrCallKinds) (h : SC l) : SC (⟨k, i, d⟩ :: l) := by
+  intro o ho
+  rcases List.mem_cons.mp ho with rfl | h'
+  · exact hk
+  · exact h o h'
+
+mutual
+theorem offS_kinds (cfg : Cfg) : ∀ (s : Stmt) (sc roles : List String) (t : Bool),
+    anyS (nativeExprKind cfg.eqOn) s = false → SC (offS cfg sc roles t s)
+  | .functionDef i n as b ds rs isA, sc, roles, t, h => by
+      simp only [anyS, orf] at h
+      simp only [offS, SC_append]
+      exact ⟨⟨⟨SC_of_OC (off_only_calls cfg sc false as _ h.1.1.1), SC_of_OC (offs_only_calls cfg sc false ds _ h.1.2)⟩,
+        SC_of_OC (offs_only_calls cfg sc false rs _ h.2)⟩, offB_kinds cfg b _ _ _ h.1.1.2⟩
+  | .classDef i n bs ks b ds, sc, roles, t, h => by
+      simp only [anyS, orf] at h
+      simp only [offS, SC_append]
+      exact ⟨⟨⟨SC_of_OC (offs_only_calls cfg sc false bs _ h.1.1.1), SC_of_OC (offs_only_calls cfg sc false ks _ h.1.1.2)⟩,
+        SC_of_OC (offs_only_calls cfg sc false ds _ h.2)⟩, offB_kinds cfg b _ _ _ h.1.2⟩
+  | .ret i v, sc, roles, t, h => by
+      simp only [anyS] at h
+      simp only [offS, SC_append]
+      refine ⟨?_, SC_of_OC (offs_only_calls cfg sc false v _ h)⟩
+      split
+      · exact SC_nil
+      · exact SC_cons (by decide) SC_nil
+  | .delete i ts, sc, roles, t, h => by
+      simp only [anyS] at h; simp only [offS]; exact SC_of_OC (offs_only_calls cfg sc false ts _ h)
+  | .assign i ts v, sc, roles, t, h => by
+      simp only [anyS, orf] at h; simp only [offS, SC_append]
+      exact ⟨SC_of_OC (offs_only_calls cfg sc false ts _ h.1), SC_of_OC (off_only_calls cfg sc false v _ h.2)⟩
+  | .augAssign i tg op v, sc, roles, t, h => by
+      simp only [anyS, orf] at h; simp only [offS, SC_append]
+      exact ⟨SC_of_OC (off_only_calls cfg sc false tg _ h.1), SC_of_OC (off_only_calls cfg sc false v _ h.2)⟩
+  | .annAssign i tg an v s, sc, roles, t, h => by
+      simp only [anyS, orf] at h; simp only [offS, SC_append]
+      exact ⟨⟨SC_of_OC (off_only_calls cfg sc false tg _ h.1.1), SC_of_OC (off_only_calls cfg sc false an _ h.1.2)⟩,
+        SC_of_OC (offs_only_calls cfg sc false v _ h.2)⟩
+  | .for_ i tg it b e x isA, sc, roles, t, h => by
+      simp only [anyS, orf] at h; simp only [offS]
+      refine SC_cons (by decide) ?_
+      simp only [SC_append]
+      exact ⟨⟨⟨SC_of_OC (off_only_calls cfg sc false tg _ h.1.1.1), SC_of_OC (off_only_calls cfg sc false it _ h.1.1.2)⟩,
+        offB_kinds cfg b _ _ _ h.1.2⟩, offB_kinds cfg e _ _ _ h.2⟩
+  | .while_ i c b e, sc, roles, t, h => by
+      simp only [anyS, orf] at h; simp only [offS]
+      refine SC_cons (by decide) ?_
+      simp only [SC_append]
+      exact ⟨⟨SC_of_OC (off_only_calls cfg sc false c _ h.1.1), offB_kinds cfg b _ _ _ h.1.2⟩, offB_kinds cfg e _ _ _ h.2⟩
+  | .if_ i c b e, sc, roles, t, h => by
+      simp only [anyS, orf] at h; simp only [offS]
+      refine SC_cons (by decide) ?_
+      simp only [SC_append]
+      exact ⟨⟨SC_of_OC (off_only_calls cfg sc false c _ h.1.1), offB_kinds cfg b _ _ _ h.1.2⟩, offB_kinds cfg e _ _ _ h.2⟩
+  | .with_ i its b isA, sc, roles, t, h => by
+      simp only [anyS, orf] at h; simp only [offS, SC_append]
+      exact ⟨SC_of_OC (offs_only_calls cfg sc true its _ h.1), offB_kinds cfg b _ _ _ h.2⟩
+  | .raise i e c, sc, roles, t, h => by
+      simp only [anyS, orf] at h; simp only [offS, SC_append]
+      exact ⟨SC_of_OC (offs_only_calls cfg sc false e _ h.1), SC_of_OC (offs_only_calls cfg sc false c _ h.2)⟩
+  | .try_ i b hs e f, sc, roles, t, h => by
+      simp only [anyS, orf] at h; simp only [offS, SC_append]
+      exact ⟨⟨⟨offB_kinds cfg b _ _ _ h.1.1.1, offB_kinds cfg hs _ _ _ h.1.1.2⟩, offB_kinds cfg e _ _ _ h.1.2⟩,
+        offB_kinds cfg f _ _ _ h.2⟩
+  | .handler i ty n b, sc, roles, t, h => by
+      simp only [anyS, orf] at h; simp only [offS, SC_append]
+      exact ⟨SC_of_OC (offs_only_calls cfg sc false ty _ h.1), offB_kinds cfg b _ _ _ h.2⟩
+  | .assert_ i c m, sc, roles, t, h => by
+      simp only [anyS, orf] at h; simp only [offS, SC_append]
+      exact ⟨SC_of_OC (off_only_calls cfg sc false c _ h.1), SC_of_OC (offs_only_calls cfg sc false m _ h.2)⟩
+  | .import_ .., _, _, _, _ => by simp [offS, SC_nil]
+  | .importFrom .., _, _, _, _ => by simp [offS, SC_nil]
+  | .global .., _, _, _, _ => by simp [offS, SC_nil]
+  | .nonlocal .., _, _, _, _ => by simp [offS, SC_nil]
+  | .expr i v, sc, roles, t, h => by
+      simp only [anyS] at h; simp only [offS]; exact SC_of_OC (off_only_calls cfg sc false v _ h)
+  | .pass .., _, _, _, _ => by simp [offS, SC_nil]
+  | .break_ .., _, _, _, _ => by simp only [offS]; exact SC_cons (by decide) SC_nil
+  | .continue_ .., _, _, _, _ => by simp only [offS]; exact SC_cons (by decide) SC_nil
+  | .other i k es bs, sc, roles, t, h => by
+      simp only [anyS, orf] at h; simp only [offS, SC_append]
+      exact ⟨SC_of_OC (offs_only_calls cfg sc false es _ h.1), offB_kinds cfg bs _ _ _ h.2⟩
+theorem offB_kinds (cfg : Cfg) : ∀ (b : List Stmt) (sc roles : List String) (t : Bool),
+    anyB (nativeExprKind cfg.eqOn) b = false → SC (offB cfg sc roles t b)
+  | [], _, _, _, _ => by simp [offB, SC_nil]
+  | s :: ss, sc, roles, t, h => by
+      simp only [anyB, orf] at h; simp only [offB, SC_append]
+      exact ⟨offS_kinds cfg s _ _ _ h.1, offB_kinds cfg ss _ _ _ h.2⟩
+end
+
 end Malt.C04
